@@ -29,7 +29,7 @@ type c18Case struct {
 
 func init() {
 	Registry["C18"] = func() {
-		ev.Main("C18", "model_checking", 60*time.Second, 15*time.Minute, c18Body, func(c *ev.Ctx, raw json.RawMessage) {
+		ev.Main("C18", "model_checking", 300*time.Second, 30*time.Minute, c18Body, func(c *ev.Ctx, raw json.RawMessage) {
 			var cs c18Case
 			if err := json.Unmarshal(raw, &cs); err != nil {
 				c.HarnessError("%v", err)
@@ -209,7 +209,7 @@ func c18Body(c *ev.Ctx) {
 				if msg != "" {
 					c.Violation(fmt.Sprintf("d=%d ops=%v", p.depth, ops), msg, cs)
 				}
-				if h == n/2 && L == p.maxLen && (p.depth <= 3 || p.depth == 32) {
+				if (h == n/2 && L == p.maxLen && (p.depth <= 3 || p.depth == 32)) || (h == 1 && L == 2 && p.depth == 2) {
 					c.Sample(cs)
 				}
 			}, func() bool { return c.Expired() || c.NViolations() > 0 })
